@@ -1,0 +1,145 @@
+//go:build verif
+
+package autog
+
+import (
+	"fmt"
+
+	"github.com/nulab/autog/internal/geom"
+	ig "github.com/nulab/autog/internal/graph"
+	imonitor "github.com/nulab/autog/internal/monitor"
+	"github.com/nulab/autog/internal/verifhook"
+)
+
+// This file exists only with the "verif" build tag. It gives the external verification harness (a different module,
+// which cannot import internal packages) plain-typed access to the hooks and to the geometry routines.
+
+// VerifNSInfo describes how a network simplex pivot loop ended.
+type VerifNSInfo = verifhook.NSInfo
+
+// VerifSetGreedySeed installs the seed provider of the random greedy cycle breaker; nil removes it.
+func VerifSetGreedySeed(fn func() (int64, bool)) { verifhook.SetGreedySeed(fn) }
+
+// VerifSetNSDone installs the observer of network simplex runs; nil removes it.
+func VerifSetNSDone(fn func(VerifNSInfo)) { verifhook.SetNSDone(fn) }
+
+// VerifNode is a snapshot of a node of the working graph.
+type VerifNode struct {
+	ID         string
+	Layer      int
+	LayerPos   int
+	IsVirtual  bool
+	X, Y, W, H float64
+}
+
+// VerifEdge is a snapshot of an edge of the working graph. From and To index into VerifSnapshot.Nodes (-1 if the
+// endpoint is not in the node list).
+type VerifEdge struct {
+	From, To   int
+	IsReversed bool
+	Delta      int
+}
+
+// VerifSnapshot is the state of the working graph of one connected component after a pipeline phase.
+type VerifSnapshot struct {
+	Phase  int
+	Nodes  []VerifNode
+	Edges  []VerifEdge
+	Layers [][]int // node indices per layer, in layer order; nil before phase 2
+}
+
+// VerifSetAfterPhase installs the observer called after each pipeline phase; nil removes it.
+func VerifSetAfterPhase(fn func(VerifSnapshot)) {
+	if fn == nil {
+		verifhook.SetAfterPhase(nil)
+		return
+	}
+	verifhook.SetAfterPhase(func(phase int, g *ig.DGraph) {
+		snap := VerifSnapshot{Phase: phase}
+		idx := make(map[*ig.Node]int, len(g.Nodes))
+		for i, n := range g.Nodes {
+			idx[n] = i
+			snap.Nodes = append(snap.Nodes, VerifNode{n.ID, n.Layer, n.LayerPos, n.IsVirtual, n.X, n.Y, n.W, n.H})
+		}
+		at := func(n *ig.Node) int {
+			if i, ok := idx[n]; ok {
+				return i
+			}
+			return -1
+		}
+		for _, e := range g.Edges {
+			snap.Edges = append(snap.Edges, VerifEdge{at(e.From), at(e.To), e.IsReversed, e.Delta})
+		}
+		for _, l := range g.Layers {
+			li := make([]int, 0, len(l.Nodes))
+			for _, n := range l.Nodes {
+				li = append(li, at(n))
+			}
+			snap.Layers = append(snap.Layers, li)
+		}
+		fn(snap)
+	})
+}
+
+func verifRects(rects [][4]float64) []geom.Rect {
+	rs := make([]geom.Rect, len(rects))
+	for i, r := range rects {
+		rs[i] = geom.Rect{TL: geom.P{X: r[0], Y: r[1]}, BR: geom.P{X: r[2], Y: r[3]}}
+	}
+	return rs
+}
+
+// VerifShortest calls geom.Shortest. Rectangles are {left, top, right, bottom}.
+func VerifShortest(p1, p2 [2]float64, rects [][4]float64) [][2]float64 {
+	path := geom.Shortest(geom.P{X: p1[0], Y: p1[1]}, geom.P{X: p2[0], Y: p2[1]}, verifRects(rects))
+	out := make([][2]float64, len(path))
+	for i, p := range path {
+		out[i] = [2]float64{p.X, p.Y}
+	}
+	return out
+}
+
+// VerifFitSpline calls geom.FitSpline on path with the sides of the merged rectangles as barriers,
+// exactly as the splines edge router does. Each returned element is one cubic piece {p0, p1, p2, p3}.
+func VerifFitSpline(path [][2]float64, rects [][4]float64) [][4][2]float64 {
+	ps := make([]geom.P, len(path))
+	for i, p := range path {
+		ps[i] = geom.P{X: p[0], Y: p[1]}
+	}
+	poly := geom.MergeRects(verifRects(rects))
+	ctrls := geom.FitSpline(ps, geom.P{}, geom.P{}, poly.Sides())
+	out := make([][4][2]float64, len(ctrls))
+	for i, c := range ctrls {
+		s := c.Float64Slice()
+		out[i] = [4][2]float64{s[0], s[1], s[2], s[3]}
+	}
+	return out
+}
+
+// VerifMergeRectsSides returns the barrier segments {ax, ay, bx, by} of the polygon obtained by merging the rectangles.
+func VerifMergeRectsSides(rects [][4]float64) [][4]float64 {
+	sides := geom.MergeRects(verifRects(rects)).Sides()
+	out := make([][4]float64, len(sides))
+	for i, s := range sides {
+		out[i] = [4]float64{s.A.X, s.A.Y, s.B.X, s.B.Y}
+	}
+	return out
+}
+
+// VerifSolve3 calls the polynomial root finder of the spline fitter; coefficients in increasing order of degree.
+func VerifSolve3(coeff []float64) []float64 { return geom.VerifSolve3(coeff) }
+
+// VerifMonitorIdle reports whether the package-level monitor state is quiescent.
+func VerifMonitorIdle() bool { return imonitor.VerifIdle() }
+
+// VerifDefaultsFingerprint renders the package-level default options, so that a change to them can be noticed.
+func VerifDefaultsFingerprint() string {
+	o := defaultOptions
+	p := o.params
+	return fmt.Sprintf("p1=%d p2=%d p3=%d p4=%d p5=%d sizefn=%t fixedfn=%t rnd=%t thor=%d maxit=%d bal=%d wmed=%d ls=%v ns=%v wf=%d bk=%d mon=%t virt=%t dvirt=%t",
+		o.p1, o.p2, o.p3, o.p4, o.p5, p.NodeSizeFunc != nil, p.NodeFixedSizeFunc != nil,
+		p.GreedyCycleBreakerRandomNodeChoice, p.NetworkSimplexThoroughness, p.NetworkSimplexMaxIterFactor,
+		p.NetworkSimplexBalance, p.WMedianMaxIter, p.LayerSpacing, p.NodeSpacing,
+		p.NetworkSimplexAuxiliaryGraphWeightFactor, p.BrandesKoepfLayout, o.monitor != nil,
+		o.output.includeVirtual, defaultOutputOptions.includeVirtual)
+}
